@@ -376,16 +376,21 @@ class ThreadPool(object):
         self._done_event.set()
 
         with self.__lock:
-            # Add something in the queue (to unlock the join())
-            try:
-                for _ in self._threads:
-                    self._queue.put(self._done_event, True, self._timeout)
-            except queue.Full:
-                # There is already something in the queue
-                pass
-
             # Copy the list of threads to wait for
             threads = self._threads[:]
+
+        # Add something in the queue, to wake up the threads waiting for a
+        # task. This is done outside the lock, as the threads need it to
+        # finish their current task, and without blocking for ever on a full
+        # queue: a thread which doesn't read the queue anymore ends by itself
+        for _ in threads:
+            while any(thread.is_alive() for thread in threads):
+                try:
+                    self._queue.put(self._done_event, True, 0.1)
+                    break
+                except queue.Full:
+                    # Nobody is waiting for a task right now: try again
+                    pass
 
         # Join threads outside the lock
         for thread in threads:
